@@ -323,15 +323,23 @@ def finish(ctx: Ctx, level_text: str, trusted: List[str], assumptions: List[str]
     b = ctx.build
     known = load_known(ctx.prop)
     violations = 0
-    for f in ctx.failures:
+    fails = sorted(ctx.failures, key=lambda f: (f.kind != "failing-input", len(json.dumps(f.witness, default=str))))
+    reported_known = set()
+    for f in fails:
         if f.kind == "failing-input" and f.key in known:
-            print("KNOWN-FINDING: property=%s %s" % (ctx.prop, known[f.key]))
+            if f.key not in reported_known:
+                print("KNOWN-FINDING: property=%s %s" % (ctx.prop, known[f.key]))
+                reported_known.add(f.key)
+            continue
+        violations += 1
+        if violations > 5:
             continue
         path = write_replay(ctx.prop, f, ctx.seed)
         tail = " no-failing-input-found" if f.kind == "no-failing-input-found" else ""
         print("VIOLATION property=%s replay=%s%s" % (ctx.prop, os.path.relpath(path, ROOT), tail))
-        print("  what: %s" % f.what)
-        violations += 1
+        print("  what: %s" % f.what[:600])
+    if violations > 5:
+        print("  (+%d further failing cases not listed)" % (violations - 5))
     ev = {
         "property_id": ctx.prop,
         "tier": ctx.tier,
